@@ -88,6 +88,26 @@ def gen_case(rng, frontend=None):
         u = rng.choice([x for x, _ in units][:-1] + [units[0][0]])
         pos = rng.randrange(1, len(steps))
         steps.insert(pos, {'uid': None, 'del': u, 'req': None, 'frame': {'del': u}})
+        w = rng.choice([x for x in hosted if x != u] or [hosted[0]])
+        rw = {'t': 'readHolding', 'address': 0, 'count': 1}
+        fw = serverlib.frame_request(framer, rw, w, rng.randrange(65536))
+        if rng.random() < 0.6 and all(0 <= x <= 247 for x, _ in units) and not (framer == 'binary' and framelib.has_delim(fw)):
+            # ... and registers ANOTHER one right away (`context[v] = slave`: the number of hosted units is what it was); requests to
+            # the new unit follow
+            v = rng.choice([x for x in range(1, 248) if x not in hosted])
+            lay = execlib.gen_layout(rng)
+            steps.insert(pos + 1, {'uid': None, 'add': v, 'req': None, 'frame': {'add': v, 'layout': lay}})
+            # (the handlers that fetch the unit list BEFORE they block in the read - sync TCP, asyncio - see the new unit from the
+            # second read after the registration on: one read for another unit comes first; the model has this as Conn.snap)
+            steps.insert(pos + 2, {'uid': w, 'req': rw, 'frame': fw})
+            for k in range(rng.choice([1, 2, 3])):
+                r = execlib.gen_req(rng, lay, [], 0.05)
+                if framer == 'rtu' and 'raw' in r and len(r['raw']) != r.get('byte_count', r.get('write_byte_count')):
+                    continue
+                f = serverlib.frame_request(framer, r, v, rng.randrange(65536))
+                if framer == 'binary' and framelib.has_delim(f):
+                    continue
+                steps.insert(rng.randrange(pos + 3, len(steps) + 1), {'uid': v, 'req': r, 'frame': f, 'after_add': True})
     # a gateway that learns its units at run time: the server is built (real constructor) around an empty context
     late = (not single) and all(0 <= u <= 247 for u, _ in units) and rng.random() < 0.25
     return dict(frontend=fe, framer=framer, single=single, units=units, ignore_missing=ignore, broadcast=bcast,
@@ -139,7 +159,7 @@ def check(ctx, rep, cases):
                     'addressed': [s['uid'] for s in c['steps']][:8]}, cap=6)
         serverlib.compare(rep, case, real, a, 'unit routing vs Server.callback')
         # (a `del context[u]` step is the application's own call: what it raises, e.g. for an id outside 0..247, is not the front-end's)
-        if any(e for e, st in zip(escs, c['steps']) if st.get('del') is None):
+        if any(e for e, st in zip(escs, c['steps']) if st.get('del') is None and st.get('add') is None):
             rep.violation('an exception escaped the front-end while serving well-formed requests', case, escaped=escs)
             continue
         # (b), (c): per-step non-interference on the real dumps
@@ -150,6 +170,11 @@ def check(ctx, rep, cases):
             if st.get('del') is not None:
                 if st['del'] in hosted and escs[i] is None:      # the deletion took effect (ids outside 0..247 cannot be deleted)
                     hosted.remove(st['del'])
+                prev = [x for x in now]
+                continue
+            if st.get('add') is not None:
+                if escs[i] is None and st['add'] not in hosted:
+                    hosted.append(st['add'])
                 prev = [x for x in now]
                 continue
             uid = st['uid']
@@ -189,11 +214,13 @@ def check(ctx, rep, cases):
             continue
         # (d) projection oracle, one `exec` query per hosted unit
         deleted = {st['del'] for st, e in zip(c['steps'], escs) if st.get('del') is not None and e is None}
-        left = [x for x in c['units'] if x[0] not in deleted]
-        for k, (u, desc) in enumerate(left):
+        left = [(x[0], x[1], 0) for x in c['units'] if x[0] not in deleted]
+        # units registered at run time take part from the step of their registration on
+        left += [(st['add'], st['frame']['layout'], i) for i, (st, e) in enumerate(zip(c['steps'], escs)) if st.get('add') is not None and e is None]
+        for k, (u, desc, since) in enumerate(left):
             if any(b['kind'] == 'broken' for b in desc['blocks']):
                 continue
-            mine = [st['req'] for st in c['steps'] if st.get('del') is None and
+            mine = [st['req'] for i, st in enumerate(c['steps']) if i >= since and st.get('del') is None and st.get('add') is None and
                     ((c['broadcast'] and st['uid'] == 0) or c['single'] or (st['uid'] == u))]
             mreqs = []
             for r in mine:
@@ -291,6 +318,41 @@ def check_noisy(ctx, rep, cases):
             prev = now
 
 
+def check_preempted(ctx, rep, rng, n):
+    """the threaded sync TCP server, two connections with requests for two different units in flight at once: connection A is
+    pre-empted right where its framer has a complete, checked frame in hand (before the result is stamped with the frame's
+    ids), connection B is served in the meantime, then A goes on.  Each request must still be executed on its own unit and
+    answered with its own ids: exactly what the model gives for the two reads one after the other."""
+    cases = []
+    for _ in range(n):
+        framer = rng.choice(['tcp', 'tcp', 'rtu', 'ascii', 'binary'])
+        ua, ub = rng.sample([1, 2, 5, 17, 200], 2)
+        lay = {'blocks': [{'kind': 'seq', 'address': 0, 'values': [0] * 16}], 'd': 0, 'c': 0, 'i': 0, 'h': 0, 'zero': True}
+        units = [[u, {'blocks': [dict(b, values=list(b['values'])) for b in lay['blocks']], 'd': 0, 'c': 0, 'i': 0, 'h': 0, 'zero': True}]
+                 for u in sorted([ua, ub])]
+        ra = {'t': 'writeRegister', 'address': rng.randrange(16), 'value': rng.randrange(1, 65536)}
+        rb = {'t': 'writeRegister', 'address': rng.randrange(16), 'value': rng.randrange(1, 65536)}
+        fa = serverlib.frame_request(framer, ra, ua, rng.randrange(65536))
+        fb = serverlib.frame_request(framer, rb, ub, rng.randrange(65536))
+        if framer == 'binary' and (framelib.has_delim(fa) or framelib.has_delim(fb)):
+            continue
+        cases.append(dict(frontend='syncTcp', framer=framer, single=False, units=units, ignore_missing=False, broadcast=False,
+                          schedule=[[0, fa], [1, fb]], kind='preempted', addressed=[ua, ub]))
+    if not cases:
+        return
+    for c, a in zip(cases, serverlib.ask_model(ctx, cases)):
+        out_a, out_b, dumps, parked = frontends.preempted_pair(c['framer'], c['units'], c['ignore_missing'], c['schedule'][0][1], c['schedule'][1][1])
+        case = {k: c[k] for k in ('kind', 'frontend', 'framer', 'single', 'units', 'ignore_missing', 'broadcast', 'schedule', 'addressed')}
+        rep.case(('preempted', c['framer'], str(c['schedule'])), nontrivial=parked, tag='preempted:' + c['framer'])
+        if not parked:
+            rep.hist['preempt-point-not-reached'] += 1
+        real = {'out': [[b for f in out_a for b in f], [b for f in out_b for b in f]], 'dumps': dumps}
+        model = {'out': [[b for f in call['out'] for b in f] for call in a['calls']], 'dumps': a['dumps']}
+        if not rep.compare(case, real, model, 'two connections, one pre-empted in its framer, vs Server.serveSched'):
+            rep.violation('with two connections served at once, a request was not executed on its own unit and answered with its own '
+                          'ids', case, written_to_A=real['out'][0], written_to_B=real['out'][1], expected=model['out'])
+
+
 def run(ctx):
     rep = Report(RULE)
     rng = ctx.rng
@@ -310,6 +372,7 @@ def run(ctx):
         check(ctx, rep, cases)
         done += len(cases)
         check_noisy(ctx, rep, [gen_noisy(rng) for _ in range(25)])
+        check_preempted(ctx, rep, rng, 10)
     rep.notes.extend(sorted(run_real_stepwise.notes))
     return rep
 
@@ -318,6 +381,12 @@ def replay(ctx, payload):
     rep = Report(RULE)
     c = dict(payload['case'])
     c.setdefault('steps', [])
+    if c.get('kind') == 'preempted':
+        a = serverlib.ask_model(ctx, [c])[0]
+        out_a, out_b, dumps, parked = frontends.preempted_pair(c['framer'], c['units'], c['ignore_missing'], c['schedule'][0][1], c['schedule'][1][1])
+        real = {'out': [[b for f in out_a for b in f], [b for f in out_b for b in f]], 'dumps': dumps}
+        model = {'out': [[b for f in call['out'] for b in f] for call in a['calls']], 'dumps': a['dumps']}
+        return None if real == model else 'with two connections served at once, a request was not executed on its own unit and answered with its own ids'
     if c.get('kind') == 'noisy':
         check_noisy(ctx, rep, [c])
     else:
